@@ -1218,8 +1218,8 @@ func runOnce(h *core.History, scratch string) (*core.Result, bool) {
 				}
 				// C09: exactly the acknowledged map, via Get, Has and RangeKeys
 				for _, k := range w.alpha {
-					v, err := w.p.Get(k)
-					herr := w.p.Has(k)
+					v, err := w.p.Get(res.CallerKey(k))
+					herr := w.p.Has(res.CallerKey(k))
 					want, ok := w.ref[string(k)]
 					switch {
 					case ok && err != nil:
@@ -1337,7 +1337,7 @@ func runOnce(h *core.History, scratch string) (*core.Result, bool) {
 			if !w.levelDB && err == nil {
 				// memorydb: Destroy empties the map, the object lives on
 				for _, k := range w.alpha {
-					if _, gerr := w.p.Get(k); gerr == nil || w.p.Has(k) == nil {
+					if _, gerr := w.p.Get(res.CallerKey(k)); gerr == nil || w.p.Has(res.CallerKey(k)) == nil {
 						failAll(res, c09, i, "after Destroy key %x is still present", k)
 					}
 				}
@@ -1373,8 +1373,8 @@ func runOnce(h *core.History, scratch string) (*core.Result, bool) {
 		gb := make([]string, len(w.alpha))
 		hc := make([]string, len(w.alpha))
 		for j, k := range w.alpha {
-			v, err := w.p.Get(k)
-			herr := w.p.Has(k)
+			v, err := w.p.Get(res.CallerKey(k))
+			herr := w.p.Has(res.CallerKey(k))
 			gc[j] = core.N(uint64(classOf(err)))
 			gb[j] = "-"
 			if err == nil {
